@@ -10,7 +10,7 @@ import zipfile
 from pathlib import Path, PurePath
 from xml.etree import ElementTree as ET
 
-from .. import iosim
+from .. import corpus, iosim
 from .. import kernel as K
 
 ID = "C04"
@@ -18,9 +18,10 @@ ENGINE = "iosim"
 LEVEL = "exploration"
 BUDGET = {"quick": 75, "thorough": 1200}
 RUN_TIMEOUT = 120
+REPLAY_TRIES = 6
 SELFTEST_PAIRS = {"quick": 16, "thorough": 40}
 PROBES = ["accepted_after_fault", "fault_free_result", "result_with_images", "result_with_tables", "result_with_units", "placeholder_image_with_error",
-          "doc_properties_compared", "path_none", "path_existing_file", "path_member_form", "non_bmp_text", "entry_attachment", "entry_archive"]
+          "doc_properties_compared", "path_none", "path_existing_file", "path_member_form", "non_bmp_text", "entry_attachment", "entry_archive", "earlier_documents_in_process", "path_context_changed"]
 RULE = ("the fault space of C01 restricted to runs that yield >= 1 result (damaged-but-accepted documents) plus a fault-free population; for every "
         "result the full accessor sweep over result / units / images / tables / metadata is applied; distinct non-trivial = (result type, entry, "
         "first fault kind, shape class (units/images/tables present), function-set signature)")
@@ -45,6 +46,15 @@ def gen_case(rng: random.Random, tier: str) -> dict:
     c = iosim.gen_case(rng, tier, fault_free_p=0.3, s2_bias=0.65, entries=["direct", "direct", "read_file", "archive_zip", "attachment"])
     if rng.random() < 0.75:
         c["route"] = iosim.ext_of(c["doc"])  # accepted results need the right parser most of the time
+    if rng.random() < 0.35:
+        # history: other documents of the same family are extracted (and dropped) earlier in the same process
+        fam = [n for n in iosim.names() if iosim.ext_of(n) == iosim.ext_of(c["doc"]) and n != c["doc"] and "password" not in n]
+        if fam:
+            c["prelude"] = [rng.choice(fam) for _ in range(rng.choice([1, 2, 4, 9]))]
+    if rng.random() < 0.3:
+        c["recheck"] = rng.choice(["chdir", "create_file", "both", "exists_in_both_cwds", "exists_in_both_cwds"])  # same path string, changed file-system context
+        c["entry"] = "direct"
+        c["path_kind"] = rng.choice(["relative", "relative", "unicode"])
     return c
 
 
@@ -289,6 +299,28 @@ def run_case(case: dict) -> dict:
     fs = K.FuncSet((K.PKG + os.sep,))
     fs.start()
     try:
+        import gc
+        for pn in case.get("prelude") or []:
+            try:
+                rs = list(corpus.extractor_for(pn)(io.BytesIO(iosim.docs()[pn]), None))
+                for r in rs:
+                    r.get_full_text()
+                    r.get_metadata()
+            except Exception:
+                pass
+            rs = None
+            gc.collect()
+            probes["earlier_documents_in_process"] = 1
+        os.makedirs(os.path.join(sbx, "cwd1"), exist_ok=True)
+        os.makedirs(os.path.join(sbx, "cwd2"), exist_ok=True)
+        os.chdir(os.path.join(sbx, "cwd1"))
+        if case.get("recheck") == "exists_in_both_cwds":
+            rel = iosim.path_arg(case, f"{case['stem']}.{case['route']}")
+            for cw in ("cwd1", "cwd2"):
+                fp = os.path.join(sbx, cw, rel)
+                os.makedirs(os.path.dirname(fp), exist_ok=True)
+                with open(fp, "wb") as f:
+                    f.write(b"x")
         out = iosim.execute(case, sbx)
         fname = f"{case['stem']}.{case['route']}"
         entry = case["entry"]
@@ -332,10 +364,23 @@ def run_case(case: dict) -> dict:
             own = iosim.ext_of(case["doc"])
             if entry in ("direct", "read_file") and case["route"].lower() == own and ri == 0 and not case["ops"]:
                 compare_props(res, data, own, viol, probes, where)
+        if case.get("recheck") and entry == "direct" and path and out.exc is None:
+            # the same path string under a changed context: other cwd and/or the path now names an existing file
+            if case["recheck"] in ("chdir", "both", "exists_in_both_cwds"):
+                os.chdir(os.path.join(sbx, "cwd2"))
+            if case["recheck"] in ("create_file", "both"):
+                os.makedirs(os.path.dirname(os.path.abspath(path)), exist_ok=True)
+                with open(path, "wb") as f:
+                    f.write(b"x")
+            probes["path_context_changed"] = 1
+            out2 = iosim.execute(case, sbx)
+            for ri, res in enumerate(out2.results[:3]):
+                sweep(res, path if case["route"].lower() not in ARCHIVE_ROUTES else SKIP_PATH, viol, probes, f"{case['doc']} re-extracted after {case['recheck']} result[{ri}]")
         for mail in out.outer[:2]:
             sweep(mail, "carrier.eml", viol, probes, f"{case['doc']} carrier e-mail")
     finally:
         fsig = fs.stop()
+        os.chdir("/")
         shutil.rmtree(sbx, ignore_errors=True)
     if out.results:
         probes["accepted_after_fault" if case["ops"] else "fault_free_result"] = 1
@@ -358,9 +403,16 @@ def shrink(case):
     ops = case["ops"]
     for i in range(len(ops)):
         yield dict(case, ops=ops[:i] + ops[i + 1:])
+    if case.get("prelude"):
+        yield {k: v for k, v in case.items() if k != "prelude"}
+        if len(case["prelude"]) > 1:
+            yield dict(case, prelude=case["prelude"][:len(case["prelude"]) // 2])
+            yield dict(case, prelude=case["prelude"][len(case["prelude"]) // 2:])
+    if case.get("recheck"):
+        yield {k: v for k, v in case.items() if k != "recheck"}
     if case["entry"] != "direct":
         yield dict(case, entry="direct")
-    if case.get("path_kind") != "none":
+    if case.get("path_kind") != "none" and not case.get("recheck"):
         yield dict(case, path_kind="none")
     if case.get("pos"):
         yield dict(case, pos=0)
